@@ -321,6 +321,8 @@ def run_prog(name, chosen):
             return [(f"C08:template-not-parametrized:{name}", f"{chosen}")]
         t0 = snapshot.snap(tmpl, with_calls=True).key(with_calls=True)
         built_keys = {}
+        # caller-owned numpy buffers, reused and updated IN PLACE from one build to the next
+        buffers = {}
         for order in (("A", "B", "A"), ("B", "A", "A")):
             for tag in order:
                 assign = A if tag == "A" else B
@@ -329,6 +331,15 @@ def run_prog(name, chosen):
                 vals = TV.var_values(assign)
                 if vals is None:
                     continue
+                if order[0] == "B":  # second pass: hand over the same arrays, edited in place
+                    for vn, vv in list(vals.items()):
+                        dt = tmpl.declared_variables[vn].dtype
+                        arr = np.atleast_1d(np.asarray(vv, dtype=dt))
+                        if vn in buffers and buffers[vn].shape == arr.shape:
+                            buffers[vn][...] = arr
+                        else:
+                            buffers[vn] = arr.copy()
+                        vals[vn] = buffers[vn]
                 try:
                     b = tmpl.build(**vals)
                 except Exception as e:
